@@ -17,22 +17,14 @@ func init() {
 func c05(c *q.Ctx) {
 	poolMapOwner(c)
 	poolRollback(c)
+	poolReload(c)
 	metaCopiesDistinct(c)
 	blockCacheCoherent(c)
 	keyLockProtocol(c)
 	const st = "bcs/ledger/xledger/state::"
 	const led = "bcs/ledger/xledger/ledger::"
 	k9 := ledgerK9(c)
-	coinbaseNever := "coinbase transactions never reach the pool path: DoTx rejects them and recoverUnconfirmedTx skips them, so UpdateUtxoTotal is not executed here"
-	k9.Operation(led+"(*Ledger).ConfirmBlock", nil)
-	k9.Operation(led+"(*Ledger).Truncate", nil)
-	k9.Operation(st+"(*State).doTxSync", map[string]string{"total supply": coinbaseNever})
-	k9.Operation(st+"(*State).PlayAndRepost", nil)
-	k9.Operation(st+"(*State).PlayForMiner", nil)
-	k9.Operation(st+"(*State).RollBackUnconfirmedTx", map[string]string{"total supply": coinbaseNever})
-	walkBal := "Walk empties the balance cache under the exclusive state lock right before the loops and AddBalance/SubBalance on an uncached address only bump its dirty counter; an entry can reappear only through a concurrent GetBalance, a schedule that is not decided here"
-	k9.Operation(st+"(*State).procUndoBlkForWalk", map[string]string{"balance cache": walkBal})
-	k9.Operation(st+"(*State).procTodoBlkForWalk", map[string]string{"balance cache": walkBal})
+	allK9Operations(c, k9)
 
 	// publish-only mirrors: stored only behind the commit
 	if cb := c.Fn(led + "(*Ledger).ConfirmBlock"); cb != nil {
@@ -137,4 +129,25 @@ func ledgerK9(c *q.Ctx) *q.K9 {
 	// ConfirmBlock's deferred purge tests the status it returns: `!confirmStatus.Succ`
 	k9.FailGuard = func(g q.Cond) bool { return g.Canon == "local<ConfirmStatus>.Succ" && !g.Sense }
 	return k9
+}
+
+// allK9Operations: the eight batch-writing operations (C05 all of them; C02 the six of the state machine: a cache or a
+// total that keeps the effects of a refused block or transaction admits a second spend of a refunded output and makes
+// the sum of the unspent outputs disagree with the total).
+func allK9Operations(c *q.Ctx, k9 *q.K9) {
+	const st = "bcs/ledger/xledger/state::"
+	const led = "bcs/ledger/xledger/ledger::"
+	coinbaseNever := "coinbase transactions never reach the pool path: DoTx rejects them and recoverUnconfirmedTx skips them, so UpdateUtxoTotal is not executed here"
+	if c.Prop != "C02" {
+		k9.Operation(led+"(*Ledger).ConfirmBlock", nil)
+		k9.Operation(led+"(*Ledger).Truncate", nil)
+	}
+	k9.Operation(st+"(*State).doTxSync", map[string]string{"total supply": coinbaseNever})
+	k9.Operation(st+"(*State).PlayAndRepost", nil)
+	k9.Operation(st+"(*State).PlayForMiner", nil)
+	k9.Operation(st+"(*State).RollBackUnconfirmedTx", map[string]string{"total supply": coinbaseNever})
+	walkBal := "Walk empties the balance cache under the exclusive state lock right before the loops and AddBalance/SubBalance on an uncached address only bump its dirty counter; an entry can reappear only through a concurrent GetBalance, a schedule that is not decided here"
+	k9.Operation(st+"(*State).procUndoBlkForWalk", map[string]string{"balance cache": walkBal})
+	k9.Operation(st+"(*State).procTodoBlkForWalk", map[string]string{"balance cache": walkBal})
+
 }
